@@ -52,7 +52,13 @@ CONSTANTS Tier,              \* "quick" | "thorough" : size of the table
           RestrictRule,      \* TRUE = sshd(8) meaning of restrict / permit words (the oracle)
           EmptyCertIsNoCert, \* sensitivity: WRONG rule "an empty option dict is like no certificate"
           KeyCommandFirst,   \* sensitivity: WRONG precedence command= over force-command
-          EitherGrants       \* sensitivity: WRONG rule "granted if key OR certificate grants"
+          EitherGrants,      \* sensitivity: WRONG rule "granted if key OR certificate grants"
+          VerifyRule,        \* TRUE = sshd(8) meaning of verify-required (the oracle); FALSE = the
+                             \* word is ignored (asyncssh as coded today)
+          EitherWaivesTouch, \* sensitivity: WRONG rule "touch is waived if the cert-authority line
+                             \* OR the certificate says no-touch-required"
+          CallbackWaivesTouch \* sensitivity: WRONG rule "a key accepted by the application callback
+                             \* need not prove user presence"
 
 Perms == {"pty", "agent-forwarding", "X11-forwarding", "port-forwarding", "user-rc"}
 Order == <<"pty", "agent-forwarding", "X11-forwarding", "port-forwarding", "user-rc">>
@@ -111,7 +117,8 @@ EmptyEntry == Entry(FALSE, "-", <<>>)      \* options = {}
 
 Cert(ext) ==
     [present |-> TRUE, ext |-> ext, force |-> "-", src |-> {}, principals |-> {"alice"},
-     valid |-> "ok", ctype |-> "user", ca |-> "ca"]
+     valid |-> "ok", ctype |-> "user", ca |-> "ca",
+     notouch |-> FALSE]  \* extension no-touch-required
 NoCert == [Cert({}) EXCEPT !.present = FALSE, !.principals = {}]
 
 Cred(sec, method, entries, cert) ==
@@ -119,7 +126,12 @@ Cred(sec, method, entries, cert) ==
      cbkey |-> FALSE,    \* SSHServer.validate_public_key accepts the user key
      cbca |-> FALSE,     \* SSHServer.validate_ca_key accepts the CA "ca"
      user |-> "alice", addr |-> "10.0.0.5",
-     cenv |-> "-"]       \* value the client sends for environment variable N
+     cenv |-> "-",       \* value the client sends for environment variable N
+     \* the user key: "ed25519" or a FIDO security key "sk-ed25519" / "sk-ecdsa"; and what the
+     \* token put into the signature: user-presence bit, user-verification bit, and whether it
+     \* signed for the application id the public key names ("same") or another one
+     ktype |-> "ed25519",
+     sig |-> [up |-> TRUE, uv |-> FALSE, app |-> "same"]]
 
 ----------------------------------------------------------------------------
 \* authentication (connection.py validate_public_key and below, auth_keys.py validate)
@@ -156,15 +168,37 @@ CertWhy(c, o) ==
          THEN "source-address"
     ELSE "ok"
 Callback(c) == IF c.cert.present THEN c.cbca /\ c.cert.ca = "ca" ELSE c.cbkey
-Session(c) ==
+
+\* security keys (sk_eddsa.py / sk_ecdsa.py verify_ssh, set_touch_required in connection.py;
+\* sshd(8) no-touch-required / verify-required, PROTOCOL.u2f): the signature covers the
+\* application id of the public key; it must carry the user-presence bit unless EVERY
+\* applicable source waives touch - the authorized_keys line, and for a certificate ALSO the
+\* certificate's extension (a key accepted by the application callback has no line: never
+\* waived); verify-required on the line demands the user-verification bit.
+IsSk(c) == c.ktype \in {"sk-ed25519", "sk-ecdsa"}
+HasFlag(o, t) == \E i \in DOMAIN o.flags : o.flags[i] = t
+TouchWaived(c, i, o) ==
+    LET line == HasFlag(o, "no-touch-required") \/ (CallbackWaivesTouch /\ i = 0)
+    IN IF ~c.cert.present THEN line
+       ELSE IF EitherWaivesTouch THEN line \/ c.cert.notouch
+       ELSE line /\ c.cert.notouch
+SigWhy(c, i, o, vr) ==
+    IF ~IsSk(c) THEN "ok"
+    ELSE IF ~TouchWaived(c, i, o) /\ ~c.sig.up THEN "touch"
+    ELSE IF vr /\ HasFlag(o, "verify-required") /\ ~c.sig.uv THEN "verify"
+    ELSE IF c.sig.app # "same" THEN "signature"
+    ELSE "ok"
+
+SessionR(c, vr) ==
     LET i == Lookup(c)
         o == IF i # 0 THEN c.entries[i] ELSE EmptyEntry
         why == IF c.method = "password" THEN "ok"
                ELSE IF i = 0 /\ ~Callback(c) THEN "lookup"
-               ELSE IF ~c.cert.present THEN "ok"
-               ELSE CertWhy(c, o)
+               ELSE IF c.cert.present /\ CertWhy(c, o) # "ok" THEN CertWhy(c, o)
+               ELSE SigWhy(c, i, o, vr)
     IN [acc |-> why = "ok", why |-> why, applied |-> i, o |-> o, cert |-> c.cert,
         cenv |-> c.cenv]
+Session(c) == SessionR(c, VerifyRule)
 Accepted(c) == Session(c).acc
 
 ----------------------------------------------------------------------------
@@ -370,7 +404,36 @@ MixRows ==
          f \in {<<"no-pty">>, <<"no-X11-forwarding", "no-agent-forwarding">>},
          k \in {"-", "kc"}, a \in Addrs}
 
+\* G. security keys: key kind x (plain line | cert-authority line + certificate | callbacks)
+\*    x touch / verify words on the line x no-touch-required extension x signature flags x
+\*    application id
+SkTypes == {"sk-ed25519", "sk-ecdsa"}
+SkWords == {<<>>, <<"no-touch-required">>, <<"verify-required">>,
+            <<"no-touch-required", "verify-required">>}
+Sigs == [up : BOOLEAN, uv : BOOLEAN, app : {"same", "other"}]
+SigsQ == IF Thorough THEN Sigs ELSE {g \in Sigs : g.app = "same" \/ (g.up /\ ~g.uv)}
+WithSk(cc, t, g) == [cc EXCEPT !.ktype = t, !.sig = g]
+NoTouch(cert, b) == [cert EXCEPT !.notouch = b]
+SkRows ==
+    {WithSk(KeyRow("sk", w), t, g) : w \in SkWords, t \in SkTypes, g \in SigsQ}
+    \cup {WithSk(CertRow("sk", w, NoTouch(Cert(Perms), b)), t, g) :
+             w \in SkWords, b \in BOOLEAN, t \in SkTypes, g \in SigsQ}
+    \cup {WithSk(CbCertRow("sk", NoTouch(Cert(Perms), b)), t, g) :
+             b \in BOOLEAN, t \in SkTypes, g \in SigsQ}
+    \cup {WithSk(CbKeyRow("sk"), t, g) : t \in SkTypes, g \in SigsQ}
+    \* the line names the same public value under another application id: another key
+    \cup {WithSk(Cred("sk", "publickey", <<Entry(FALSE, "user-otherapp", w)>>, NoCert), t, g) :
+             w \in {<<>>, <<"no-touch-required">>}, t \in SkTypes,
+             g \in {g \in Sigs : g.up /\ ~g.uv}}
+    \* the words mean nothing for an ordinary key (its signature has no flags)
+    \cup {KeyRow("sk", w) : w \in SkWords}
+    \cup {CertRow("sk", w, NoTouch(Cert(Perms), b)) : w \in SkWords, b \in BOOLEAN}
+    \* ... and leave the other options of the line in force
+    \cup {WithSk(KeyRow("sk", <<"no-pty">> \o w), t, [up |-> TRUE, uv |-> TRUE, app |-> "same"]) :
+             w \in SkWords, t \in SkTypes}
+
 Rows == (IF "perm" \in Sections THEN PermRows ELSE {})
+        \cup (IF "sk" \in Sections THEN SkRows ELSE {})
         \cup (IF "mix" \in Sections THEN MixRows ELSE {})
         \cup (IF "seq" \in Sections THEN SeqRows ELSE {})
         \cup (IF "cmd" \in Sections THEN CmdRows ELSE {})
@@ -475,10 +538,27 @@ PlainKeyNotViaCALine ==
         \/ \E i \in DOMAIN c.entries : ~c.entries[i].ca /\ c.entries[i].key = "user"
         \/ c.cbkey
 
+\* security keys
+TouchEnforced ==
+    LET s == S IN
+    (s.acc /\ IsSk(c) /\ ~c.sig.up) =>
+        /\ s.applied # 0 /\ HasFlag(s.o, "no-touch-required")
+        /\ c.cert.present => c.cert.notouch
+VerifyEnforced ==
+    LET s == S IN
+    (s.acc /\ IsSk(c) /\ HasFlag(s.o, "verify-required")) => c.sig.uv
+SkSignatureBound == (S.acc /\ IsSk(c)) => c.sig.app = "same"
+\* a token that asserts presence and verification for the right application is refused only
+\* for reasons that would refuse an ordinary key as well
+SkWordsOnlyRestrict ==
+    (IsSk(c) /\ c.sig.up /\ c.sig.uv /\ c.sig.app = "same") =>
+        S.acc = Session([c EXCEPT !.ktype = "ed25519"]).acc
+
 \* emits the table (always TRUE)
 Verdict ==
     LET s == S IN
     [acc |-> s.acc, why |-> s.why, applied |-> s.applied,
+     accCoded |-> SessionR(c, FALSE).acc,
      ops |-> {op \in Ops : AllowedR(s, op, TRUE)},
      opsCoded |-> {op \in Ops : AllowedR(s, op, FALSE)},
      dests |-> {d \in Dests : OpenAllowedR(s, d, TRUE)},
